@@ -128,6 +128,21 @@ def rule_b(ctx: Context, R: Reporter, F: Freshness):
                 at = flow.node_containing(stmt)
                 av = F.eval(m, val, at)
                 n += 1
+                # one mutable object shared by several slots: dict.fromkeys(keys, []) / [[]] * n
+                from ..dataflow import Resolver as _Res
+
+                rv = _Res(m.node).resolve(val, at) if at is not None else val
+                for x in ast.walk(rv):
+                    shared = None
+                    if isinstance(x, ast.Call) and dotted(x.func) == "dict.fromkeys" and len(x.args) == 2 and (isinstance(x.args[1], (ast.List, ast.Dict, ast.Set, ast.ListComp))
+                                                                                                             or (isinstance(x.args[1], ast.Call) and dotted(x.args[1].func) in ("list", "dict", "set"))):
+                        shared = f"`{unparse(x)[:50]}` gives every key the same {unparse(x.args[1])} object"
+                    elif isinstance(x, ast.BinOp) and isinstance(x.op, ast.Mult) and isinstance(x.left, ast.List) and any(isinstance(el, (ast.List, ast.Dict)) for el in x.left.elts):
+                        shared = f"`{unparse(x)[:50]}` repeats one inner list object"
+                    if shared:
+                        R.check("C17.c", "every recorded quantity has its own history list", False, m, stmt,
+                                msg=f"{m.short}: {shared}: a batch appended for one quantity appears in the history of all of them (several batches per quantity per iteration)",
+                                key=f"shared-history-list:{m.short}")
                 bad = av.bad_nodes(("param", "internal"))
                 # `.update(dict)`: the container itself is consumed, its *elements* are stored
                 if isinstance(stmt, ast.Call) and stmt.func.attr in ("update", "extend"):
@@ -217,6 +232,58 @@ def rule_c(ctx: Context, R: Reporter, F: Freshness):
                         if depth >= 2 or isinstance(node, (ast.AugAssign, ast.Delete)) or not in_import:
                             R.check("C17.c", "earlier history batches are never overwritten", False, fi, node,
                                     msg=f"{fi.short}: `{unparse(node)[:80]}` rewrites committed history in place")
+    # in-place numpy operations on arrays that are still the internal ones: np.f(a, copy=False), np.f(..., out=a),
+    # a.sort() / a.fill() / np.copyto(a, ...) / np.place / np.putmask with `a` an element of the history or current state
+    INPLACE_METHODS = {"sort", "fill", "put", "itemset", "resize", "partition", "setfield", "byteswap"}
+    INPLACE_FUNCS = {"numpy.copyto": 0, "numpy.place": 0, "numpy.putmask": 0, "numpy.put": 0, "numpy.random.shuffle": 0, "numpy.fill_diagonal": 0}
+    n_inpl = 0
+    for fi in ctx.prog.functions.values():
+        if fi.cls is None or not (fi.cls is sc or sc in [t for a_ in _self_attrs(fi.cls) for t in ctx.res.attr_type(fi.cls, a_)]):
+            continue
+        parents = {}
+        for x in ast.walk(fi.node):
+            for ch in ast.iter_child_nodes(x):
+                parents[id(ch)] = x
+        flow = flow_of(fi.node)
+        for node in walk_no_nested(fi.node):
+            if not isinstance(node, ast.Call):
+                continue
+            target = None
+            how = ""
+            for k in node.keywords:
+                if k.arg == "out" and not (isinstance(k.value, ast.Constant) and k.value.value is None):
+                    target, how = k.value, "out="
+                if k.arg == "copy" and isinstance(k.value, ast.Constant) and k.value.value is False and node.args and (ctx.res.external_name(fi, node) or "").startswith("numpy.") \
+                        and (ctx.res.external_name(fi, node) or "").split(".")[-1] in ("nan_to_num", "clip", "round", "around"):
+                    target, how = node.args[0], "copy=False"
+            nm = ctx.res.external_name(fi, node) or ""
+            if nm in INPLACE_FUNCS and len(node.args) > INPLACE_FUNCS[nm]:
+                target, how = node.args[INPLACE_FUNCS[nm]], nm
+            if isinstance(node.func, ast.Attribute) and node.func.attr in INPLACE_METHODS and not nm.startswith("numpy."):
+                target, how = node.func.value, f".{node.func.attr}()"
+            if target is None:
+                continue
+            at = flow.node_containing(node)
+            # bind the variables of enclosing comprehensions
+            env = {}
+            chain_ = []
+            x = node
+            while id(x) in parents:
+                x = parents[id(x)]
+                if isinstance(x, (ast.ListComp, ast.GeneratorExp, ast.SetComp, ast.DictComp)):
+                    chain_.append(x)
+            for comp in reversed(chain_):
+                for g in comp.generators:
+                    it = F.eval(fi, g.iter, at, env)
+                    el = F._iter_elem(g.iter, it, fi, at, env, 0)
+                    F._bind(g.target, el, env)
+            av = F.eval(fi, target, at, env)
+            n_inpl += 1
+            bad = av.bad_nodes(("internal",))
+            R.check("C17.c", "no in-place numpy operation is applied to an array that is still the internal one", not bad, fi, node,
+                    msg=f"{fi.short}: `{unparse(node)[:70]}` ({how}) writes into {'; '.join(sorted({b.why or repr(b) for b in bad}))[:120]}: a read-only query rewrites committed "
+                        f"batches / the live state in place", key=f"inplace:{fi.short}:{how}")
+    R.analysed["C17.c:in-place numpy call sites inspected"] = n_inpl
     R.floor("C17.c", "append sites on history lists", len(appends), 1)
     commit_funcs = {fi.qualname for (fi, _) in appends}
     for (fi, node) in appends:
@@ -304,6 +371,10 @@ def variants():
         Variant("c-commit-twice", "bad", insert_after(core, "SamplerCore.execute_iteration", "self.state.commit_current_to_history()", "self.state.commit_current_to_history()"), ["C17.c"]),
         Variant("c-commit-in-branch", "bad", replace_stmt(core, "SamplerCore.execute_iteration", "self.state.commit_current_to_history()", "if save_every is None:\n    self.state.commit_current_to_history()"), ["C17.c"]),
         Variant("a-results-first-call-shares-cache", "bad", replace_stmt(sm, "StateManager.compute_results", "return {k: self._ensure_copy(v) for k, v in self._results_dict.items()}", "out = {k: v for k, v in self._results_dict.items()}\nself._last = dict(out)\nreturn out"), ["C17.a"]),
+        Variant("c-inplace-on-history", "bad", insert_after(sm, "StateManager.compute_logw_and_logz", "logl_per_iter = self._history.get('logl')", "np.nan_to_num(logl_per_iter[0], copy=False)"), ["C17.c"], quick=True),
+        Variant("c-inplace-out-kw", "bad", insert_after(sm, "StateManager.compute_logw_and_logz", "logl_per_iter = self._history.get('logl')", "np.clip(logl_per_iter[-1], -1e300, None, out=logl_per_iter[-1])"), ["C17.c"]),
+        Variant("c-inplace-benign-on-copy", "benign", insert_after(sm, "StateManager.compute_logw_and_logz", "logl_all = self.get_history('logl', flat=True)", "np.nan_to_num(logl_all, copy=False, nan=-1e300)")),
+        Variant("c-shared-history-list", "bad", insert_after(sm, "StateManager.__init__", "self._results_dict = None", "self._history.update(dict.fromkeys(HISTORY_STATE_KEYS, []))"), ["C17.c"], quick=True),
         Variant("benign-rename-value", "benign", alpha_rename(sm, "StateManager.get_current", "value", "val"), quick=True),
         Variant("benign-np-copy", "benign", replace_expr(sm, "StateManager._ensure_copy", "value.copy()", "np.array(value)"), quick=True),
         Variant("benign-hoist-hist", "benign", replace_stmt(sm, "StateManager.get_history", "return self._ensure_copy(self._history[key][index])", "batch = self._history[key][index]\nreturn self._ensure_copy(batch)")),
